@@ -10,7 +10,7 @@ from . import core
 from . import format_common as F
 from .core import Check, exc_code, h63_list
 
-IMPORTS = ["Base.Prelude", "Psd.Codec", "Psd.Model", "Psd.Leaf", "Psd.Descriptor", "Psd.Effects", "Psd.Patterns", "Psd.Struct", "Psd.Adjust", "Psd.Vector", "Psd.Linked", "Psd.FilterFx", "Psd.Corr"]
+IMPORTS = ["Base.Prelude", "Psd.Codec", "Psd.Model", "Psd.Leaf", "Psd.Descriptor", "Psd.Effects", "Psd.Patterns", "Psd.Struct", "Psd.Adjust", "Psd.Vector", "Psd.Linked", "Psd.FilterFx", "Psd.Rsrc", "Psd.Slices", "Psd.Corr"]
 KINDS = ["header", "cmd", "res", "resources", "tb", "tbs", "mask", "ranges", "rec", "li", "glmi", "lami", "img", "psd"]
 FIXTURES = os.path.join(core.REPO, "tests", "psd_files")
 
@@ -116,6 +116,26 @@ def _w_c01_3():
         return True
 
 
+def _cls_slices(fl):
+    inp = fl.get("input")
+    if not fl["kind"].startswith("slices-") or not isinstance(inp, dict) or "slices" not in inp:
+        return False
+    x = inp["slices"]
+    return F.slice_probe_class(x) and F.wf_slices(x, guard=False)
+
+
+def _w_c01_4():
+    from psd_tools.psd.image_resources import Slices, SlicesV6, SliceV6
+
+    s = Slices(6, SlicesV6([0, 0, 1, 1], "", [SliceV6(slice_id=0), SliceV6(slice_id=16, group_id=1, origin=2)]))
+    try:
+        return Slices.frombytes(s.tobytes()) != s
+    except Exception:
+        return True
+
+
+core.KNOWN_CLASSIFIERS["F-C01-4"] = _cls_slices
+core.KNOWN_WITNESS["F-C01-4"] = _w_c01_4
 core.KNOWN_WITNESS["F-C01-2"] = _w_c01_2      # (only consulted for open findings; F-C01-2 is fixed)
 core.KNOWN_WITNESS["F-C01-3"] = _w_c01_3
 
@@ -553,6 +573,21 @@ def fixture_paths(limit):
     return [p for p in ps if os.path.getsize(p) <= limit]
 
 
+_DOCS = {}
+
+
+def fixture_doc(pth):
+    """the fixture parsed once per run (payload streams only read from it); None when the implementation cannot read it"""
+    if pth not in _DOCS:
+        from psd_tools.psd import PSD
+
+        try:
+            _DOCS[pth] = PSD.frombytes(open(pth, "rb").read())
+        except Exception:
+            _DOCS[pth] = None
+    return _DOCS[pth]
+
+
 def run():
     F.quiet()
     ck = Check("C01")
@@ -772,9 +807,8 @@ def run():
         one_patterns(F.g_patterns(rng), "generated")
     nfp = 0
     for pth in fixture_paths(1 << 40 if thorough else 300000):
-        try:
-            doc = PSD.frombytes(open(pth, "rb").read())
-        except Exception:
+        doc = fixture_doc(pth)
+        if doc is None:
             continue
         tb = doc.layer_and_mask_information.tagged_blocks
         for t in (tb.values() if tb is not None else []):
@@ -888,9 +922,8 @@ def run():
             one_adj(F.adj_of_obj(obj), 4, "boundary")
     nfa = 0
     for pth in fixture_paths(1 << 40 if thorough else 300000):
-        try:
-            doc = PSD.frombytes(open(pth, "rb").read())
-        except Exception:
+        doc = fixture_doc(pth)
+        if doc is None:
             continue
         for x in BaseElement_traverse(doc, adj_classes):
             if nfa < (2000 if thorough else 150):
@@ -964,9 +997,8 @@ def run():
     nfv = 0
     vs_fix = []
     for pth in fixture_paths(1 << 40 if thorough else 300000):
-        try:
-            doc = PSD.frombytes(open(pth, "rb").read())
-        except Exception:
+        doc = fixture_doc(pth)
+        if doc is None:
             continue
         for x in BaseElement_traverse(doc, (_V.VectorMaskSetting, _V.VectorStrokeContentSetting)):
             if isinstance(x, _V.VectorStrokeContentSetting):
@@ -1056,9 +1088,8 @@ def run():
         one_ll([F.g_linked(rng, terms_ll, units_ll, wf=rng.random() < 0.75) for _ in range(rng.choice([0, 1, 1, 2, 3]))], "generated")
     nfl = 0
     for pth in fixture_paths(1 << 40 if thorough else 300000):
-        try:
-            doc = PSD.frombytes(open(pth, "rb").read())
-        except Exception:
+        doc = fixture_doc(pth)
+        if doc is None:
             continue
         for x in BaseElement_traverse(doc, (_LL.LinkedLayers,)):
             try:
@@ -1103,9 +1134,8 @@ def run():
         one_fx(F.g_feffects(rng, wf=rng.random() < 0.7), "generated")
     nfx = 0
     for pth in fixture_paths(1 << 40 if thorough else 300000):
-        try:
-            doc = PSD.frombytes(open(pth, "rb").read())
-        except Exception:
+        doc = fixture_doc(pth)
+        if doc is None:
             continue
         for x in BaseElement_traverse(doc, (_FE.FilterEffects,)):
             try:
@@ -1120,11 +1150,135 @@ def run():
     for i in bad[:5]:
         ck.notes.append("FilterEffects model/implementation differ on %r: impl %r" % (str(fxcases[i][0])[:400], fxcases[i][1]))
 
+    # ---- (a12) Stage 3 (5): typed image resources - generated (every table / class, boundary values, '?' fields and enum
+    #      fields outside their range), the hand-built boundary instances and every instance of the fixtures
+    from psd_tools.psd import image_resources as _IR
+
+    rcode = {"AlphaIdentifiers": 1, "LayerGroupEnabledIDs": 2, "LayerGroupInfo": 3, "HalftoneScreens": 4, "TransferFunctions": 5,
+             "DisplayInfo": 6, "LayerSelectionIDs": 7, "GridGuidesInfo": 8, "PrintFlagsInfo": 9, "ResoulutionInfo": 10,
+             "PixelAspectRatio": 11, "PrintScale": 12, "PrintFlags": 13, "ThumbnailResource": 14, "ThumbnailResourceV4": 14,
+             "VersionInfo": 15, "URLList": 16, "AlphaNamesUnicode": 17, "AlphaNamesPascal": 18, "PascalString": 19}
+    rk = sorted((int(k.value), rcode[c.__name__]) for k, c in _IR.TYPES.items() if c.__name__ in rcode)
+    from psd_tools.constants import AlphaChannelMode as _ACM, PrintScaleStyle as _PSS
+    try:
+        ck.coq_eval("Gen_RsrcTables", "From Coq Require Import ZArith List.\nImport ListNotations.\nOpen Scope Z_scope.\n"
+                    "Lemma gen_rsrc_keys_agree : %s = model_rsrc_keys. Proof. vm_compute. reflexivity. Qed.\n"
+                    "Lemma gen_alpha_modes_agree : %s = model_alpha_modes. Proof. vm_compute. reflexivity. Qed.\n"
+                    "Lemma gen_print_styles_agree : %s = model_print_styles. Proof. vm_compute. reflexivity. Qed.\n"
+                    % ("[" + ";".join("((%d)%%Z, (%d)%%Z)" % x for x in rk) + "]",
+                       "[" + ";".join("(%d)%%Z" % int(x) for x in _ACM) + "]", "[" + ";".join("(%d)%%Z" % int(x) for x in _PSS) + "]"),
+                    ["Base.Prelude", "Psd.Codec", "Psd.Model", "Psd.Struct", "Psd.Rsrc"], timeout=300)
+        ck.obligations.append(("generated-resource-tables-agree", True, ""))
+    except Exception as e:
+        ck.obligations.append(("generated-resource-tables-agree", False, str(e)[-500:]))
+    rcases = []
+
+    def one_rsrc(a, origin):
+        out, info = F.run_rsrc(a, exc_code)
+        if out is None:
+            ck.count("rsrc-not-constructible")
+            return
+        rcases.append((a, out))
+        ck.count("rsrc:%s:%s" % (origin, F.RTABLE_CLASS[a[1]] if a[0] == "table" else a[0]))
+        if info["stage"] == "write":
+            return
+        ck.nontriv(("rsrc", h63_list(0, list(info["bytes"]))))
+        if info["written"] != len(info["bytes"]):
+            ck.fail("written-count-resource", {"rsrc": jdeep(a)}, info["written"], len(info["bytes"]))
+        if F.wf_rsrc(a):
+            if info["stage"] == "read" or not (info["eq"] and info["same_canon"]):
+                ck.fail("typed-resource-roundtrip", {"rsrc": jdeep(a)},
+                        "raised %r" % info["err"] if info["stage"] else "re-read != original", "X.frombytes(x.tobytes()) == x")
+            elif not info["rewrite_same"]:
+                ck.fail("typed-resource-rewrite", {"rsrc": jdeep(a)}, "re-written bytes differ", "identical bytes")
+
+    for i in range(6000 if thorough else 700):
+        one_rsrc(F.g_rsrc(rng, wf=rng.random() < 0.75), "generated")
+    rclasses = tuple(getattr(_IR, n) for n in rcode)
+    for label, obj in F.boundary_payloads():
+        if isinstance(obj, rclasses):
+            try:
+                one_rsrc(F.rsrc_of_obj(obj), "boundary")
+            except Exception:
+                ck.count("rsrc:boundary:outside-model")
+    nfr = 0
+    for pth in fixture_paths(1 << 40 if thorough else 300000):
+        doc = fixture_doc(pth)
+        if doc is None:
+            continue
+        for x in BaseElement_traverse(doc, rclasses):
+            if nfr >= (5000 if thorough else 250):
+                break
+            try:
+                a = F.rsrc_of_obj(x)
+            except Exception:
+                ck.count("rsrc:fixture:outside-model")
+                continue
+            one_rsrc(a, "fixture")
+            nfr += 1
+    bad = ck.correspond("typed_resources", "rsrc_outcome", IMPORTS, rcases, F.coq_rsrc, chunk=150)
+    for i in bad[:5]:
+        ck.notes.append("typed resource model/implementation differ on %r: impl %r" % (str(rcases[i][0])[:400], rcases[i][1]))
+
+    # ---- (a13) Stage 3 (5): Slices - version 6 lists (slice ids around 16, with and without descriptor blocks: the class of
+    #      finding F-C01-4 included), versions 7/8, the boundary instances and every Slices object of the fixtures
+    slcases = []
+    terms_sl, units_sl = F.descriptor_env()
+    cu_sl, ct_sl = F.coq_env(terms_sl, units_sl)
+
+    def one_slices(x, origin):
+        out, info = F.run_slices(x, exc_code)
+        if out is None:
+            ck.count("slices-not-constructible")
+            return
+        slcases.append((x, out))
+        ck.count("slices:%s:%s" % (origin, "v6" if x[0] == "v6" else "descriptor"))
+        if F.slice_probe_class(x):
+            ck.count("slices:class-F-C01-4")
+        if info["stage"] == "write":
+            return
+        ck.nontriv(("slices", h63_list(0, list(info["bytes"]))))
+        if info["written"] != len(info["bytes"]):
+            ck.fail("written-count-slices", {"slices": jdeep(x)}, info["written"], len(info["bytes"]))
+        if F.wf_slices(x, guard=False):       # in scope: well-formed apart from the guard of the finding
+            if info["stage"] == "read" or not (info["eq"] and info["same_canon"]):
+                ck.fail("slices-roundtrip", {"slices": jdeep(x)},
+                        "raised %r" % info["err"] if info["stage"] else "re-read != original", "X.frombytes(x.tobytes()) == x")
+            elif not info["rewrite_same"]:
+                ck.fail("slices-rewrite", {"slices": jdeep(x)}, "re-written bytes differ", "identical bytes")
+
+    for i in range(2500 if thorough else 300):
+        one_slices(F.g_slices(rng, terms_sl, units_sl, wf=rng.random() < 0.75), "generated")
+    for label, obj in F.boundary_payloads():
+        if isinstance(obj, _IR.Slices):
+            try:
+                one_slices(F.slices_of_obj(obj), "boundary")
+            except Exception:
+                ck.count("slices:boundary:outside-model")
+    nfs = 0
+    for pth in fixture_paths(1 << 40 if thorough else 300000):
+        doc = fixture_doc(pth)
+        if doc is None:
+            continue
+        for x in BaseElement_traverse(doc, (_IR.Slices,)):
+            try:
+                a = F.slices_of_obj(x)
+            except Exception:
+                ck.count("slices:fixture:outside-model")
+                continue
+            if nfs < (500 if thorough else 60):
+                one_slices(a, "fixture")
+                nfs += 1
+    fn = "let units := %s in let terms := %s in slices_outcome units terms" % (cu_sl, ct_sl)
+    bad = ck.correspond("slices", fn, IMPORTS, slcases, F.coq_slices, chunk=40)
+    for i in bad[:5]:
+        ck.notes.append("Slices model/implementation differ on %r: impl %r" % (str(slcases[i][0])[:400], slcases[i][1]))
+
     # ---- (b) fixtures: implementation reads and re-writes; the model reads the same bytes
     from psd_tools.psd import PSD
 
     lim_impl = 1 << 40 if thorough else 300000
-    lim_coq = 2500000 if thorough else 300000
+    lim_coq = 2500000 if thorough else 120000      # quick: the model reads the fixtures up to 120 KB (58 of 102), thorough up to 2.5 MB
     fcases, fnames = [], []
     for p in fixture_paths(lim_impl):
         b = open(p, "rb").read()
@@ -1209,9 +1363,8 @@ def run():
     ck.count("terms-after-fixtures", len(terms2))
     fb, seen_d = [], set()
     for pth in fixture_paths(lim_impl):
-        try:
-            doc = PSD.frombytes(open(pth, "rb").read())
-        except Exception:
+        doc = fixture_doc(pth)
+        if doc is None:
             continue
         for x in BaseElement._traverse(doc, lambda e: isinstance(e, (D.DescriptorBlock, D.DescriptorBlock2))):
             try:
@@ -1256,6 +1409,12 @@ def run():
                 "BrightnessContrast", "ColorBalance", "Exposure", "HueSaturation", "SelectiveColor", "PhotoFilter", "ChannelMixer",
                 "Levels", "LevelRecord", "Curves", "CurvesExtraMarker", "CurvesExtraItem", "GradientMap", "ColorStop",
                 "TransparencyStop", "ColorLookup",
+                # typed image resources (Psd/Rsrc.v, Psd/Slices.v)
+                "Slices", "SlicesV6", "SliceV6",
+                "AlphaIdentifiers", "LayerGroupEnabledIDs", "LayerGroupInfo", "HalftoneScreens", "HalftoneScreen", "TransferFunctions",
+                "TransferFunction", "DisplayInfo", "AlphaChannel", "LayerSelectionIDs", "GridGuidesInfo", "PrintFlagsInfo",
+                "ResoulutionInfo", "PixelAspectRatio", "PrintScale", "PrintFlags", "ThumbnailResource", "ThumbnailResourceV4",
+                "VersionInfo", "URLList", "URLItem", "AlphaNamesUnicode", "AlphaNamesPascal", "PascalString",
                 # filter effects (Psd/FilterFx.v)
                 "FilterEffects", "FilterEffect", "FilterEffectChannel", "FilterEffectExtra",
                 # linked layers (Psd/Linked.v)
@@ -1329,5 +1488,22 @@ def replay(path):
                 print("independent walker: FAILS:", e)
         print("in scope (well-formed constructible):", in_scope(case), "| wf (with defect guards):", F.wf_case(case))
     else:
-        print("input:", json.dumps(fl["input"])[:1500])
+        inp = fl["input"]
+        print("input:", json.dumps(inp)[:1500])
+        runners = {"adj": lambda a: F.run_adj(a, inp.get("padding", 4), exc_code), "vmask": lambda a: F.run_vmask(a, exc_code),
+                   "linked": lambda a: F.run_linked(a, exc_code), "fx": lambda a: F.run_feffects(a, exc_code),
+                   "rsrc": lambda a: F.run_rsrc(a, exc_code), "slices": lambda a: F.run_slices(a, exc_code)}
+        for k, fn in runners.items():
+            if isinstance(inp, dict) and k in inp:
+                out, info = fn(inp[k])
+                print("class:", k, "| write:", "raised %r" % info["err"] if info.get("stage") in ("build", "write") else
+                      "%d bytes, reported %r" % (len(info["bytes"]), info["written"]))
+                if info.get("bytes") is not None:
+                    print("bytes:", info["bytes"][:160].hex(), "..." if len(info["bytes"]) > 160 else "")
+                    print("re-read:", "raised %r" % info["err"] if info["stage"] == "read" else
+                          ("equal" if info["eq"] and info["same_canon"] else "DIFFERENT from the original"),
+                          "| re-write same:", info.get("rewrite_same"))
+                if k == "slices":
+                    print("class of F-C01-4 (slice without block followed by slice id 16):", F.slice_probe_class(inp[k]),
+                          "| well-formed apart from that guard:", F.wf_slices(inp[k], guard=False))
     return 1
